@@ -357,6 +357,8 @@ pub fn run_c08(cx: &Cx) -> PropResult {
             }
         }
     });
+    let mut acc = acc;
+    crate::props::builtin::reduce_violations(&mut acc, &|c, a, r| check_c08(c, a, r));
     let mut r = PropResult::new(
         acc,
         "fault_enumeration",
